@@ -6,7 +6,7 @@ CONSTANTS
   MaxInit = 1
   EarlyForget = FALSE
   SwallowList = FALSE
-  Flags = {"RouteReplace", "LinkList"}
+  Flags = {"RouteReplace"}
   MaxEnv = 1
   MaxFail = 1
 INIT Init
